@@ -365,6 +365,7 @@ archive_read_format_cpio_read_header(struct archive_read *a,
 	struct archive_string_conv *sconv;
 	size_t namelength;
 	size_t name_pad;
+	int is_trailer;
 	int r;
 
 	cpio = (struct cpio *)(a->format->data);
@@ -402,6 +403,11 @@ archive_read_format_cpio_read_header(struct archive_read *a,
 	}
 	cpio->entry_offset = 0;
 
+	/* Compare name to "TRAILER!!!" to test for end-of-archive; this has
+	 * to happen while the name is still in the read buffer. */
+	is_trailer = (namelength == 11 && strncmp((const char *)h,
+	    "TRAILER!!!", 10) == 0);
+
 	__archive_read_consume(a, namelength + name_pad);
 
 	/* If this is a symlink, read the link contents. */
@@ -438,9 +444,7 @@ archive_read_format_cpio_read_header(struct archive_read *a,
 	 * and parse it as a Solaris-style ACL, then read the next
 	 * header.  XXX */
 
-	/* Compare name to "TRAILER!!!" to test for end-of-archive. */
-	if (namelength == 11 && strncmp((const char *)h, "TRAILER!!!",
-	    10) == 0) {
+	if (is_trailer) {
 		/* TODO: Store file location of start of block. */
 		archive_clear_error(&a->archive);
 		return (ARCHIVE_EOF);
